@@ -39,7 +39,7 @@ from bacpypes.primitivedata import (Atomic, Null, Boolean, Unsigned, Integer, Re
 from bacpypes.constructeddata import Any, AnyAtomic, Array, ArrayOf, List, ListOf, Sequence, Choice
 import bacpypes.constructeddata as cd
 import bacpypes.object as bo
-from bacpypes.basetypes import PropertyIdentifier
+from bacpypes.basetypes import PropertyIdentifier, DateRange
 from bacpypes.object import (Object, Property, OptionalProperty, ReadableProperty, WritableProperty, register_object_type)
 
 IMPL_WORKERS = int(os.environ.get("VERIF_IMPL_WORKERS", "0") or 0) or max(1, min(6, (os.cpu_count() or 2) // 2))
@@ -256,9 +256,21 @@ class Device:
         self.snap = None
 
     def clear(self):
+        """take the objects out of the server again (by identity: a defective device may have let a client change an
+        object's name or identifier, which Application.delete_object would then not find)"""
+        srv = self.server
         for name, (oid, obj) in list(self.objs.items()):
-            if self.server.get_object_id(oid) is obj:
-                self.server.delete_object(obj)
+            for table in (srv.objectName, srv.objectIdentifier):
+                for k in [k for k, v in table.items() if v is obj]:
+                    del table[k]
+            ol = srv.localDevice.objectList if srv.localDevice is not None else None
+            for ident in (oid, obj._values.get("objectIdentifier")):
+                try:
+                    while ol is not None and ident in ol:
+                        ol.remove(ident)
+                except Exception:
+                    pass
+            obj._app = None
         self.objs.clear()
 
     def oid(self, name):
@@ -842,6 +854,9 @@ def t_trace(job):
         gen = Gen(dev, rng, names)
 
         def ops():
+            for p in gen.arrays:                            # prologue: walk over every array that has a value
+                if dev.snap[names[0]][p]["st"] != "abs":
+                    yield {"op": "scan", "o": names[0], "p": p}
             for _ in range(nops):
                 yield gen.op()
         evs = record(dev, ops(), lazy=True)
@@ -872,6 +887,7 @@ class StoreObject(Object):
         WritableProperty("stateText", ArrayOf(CharacterString)),
         WritableProperty("eventMessageTexts", ArrayOf(CharacterString, 2)),
         WritableProperty("subordinateAnnotations", ListOf(CharacterString)),
+        WritableProperty("dateList", ArrayOf(DateRange)),          # an array of constructed elements
         OptionalProperty("deviceType", CharacterString),
     ]
 
@@ -881,7 +897,8 @@ def store_objects():
     for inst in (1, 2):
         o = StoreObject(objectIdentifier=(300, inst), objectName="store-%d" % inst, description="a",
                         stateText=ArrayOf(CharacterString)(["a", "b"]),
-                        eventMessageTexts=ArrayOf(CharacterString, 2)(["a", "a"]), subordinateAnnotations=["a"])
+                        eventMessageTexts=ArrayOf(CharacterString, 2)(["a", "a"]), subordinateAnnotations=["a"],
+                        dateList=ArrayOf(DateRange)([DateRange(startDate=(120, 1, 1, 3), endDate=(120, 1, 31, 5))]))
         for prop in [p for pid, p in list(o._properties.items())
                      if pid in ("profileName", "auditLevel", "auditableOperations", "tags", "profileLocation")]:
             o.delete_property(prop)         # keep the store small (Object.delete_property is the library's own API)
@@ -1188,6 +1205,8 @@ def classify(t, m, ev, pre):
         sig["case"] = "%s_with_fault_answered_%s" % (ev["op"], ev["res"]["k"])
         sig["answer"] = "%s:%s" % (ev["res"]["k"], ev["res"]["c"])
         sig["value"] = ev["x"]["ty"]
+    elif m == "ArrayIndexing" and ev["op"] == "read":
+        sig["case"] = "indexed_read_answered_%s" % ev["res"]["k"]
     elif m == "ArrayIndexing":
         ks = [el["r"]["k"] for el in ev["out"]]
         sig["case"] = ("index0_not_length" if not ks or ks[0] != "len" else
@@ -1281,7 +1300,6 @@ def main(tier, seed):
     if os.environ.get("C15_DEV_FINDINGS"):      # development aid only: extra known-finding entries from a local file
         chk.findings = chk.findings + json.load(open(os.environ["C15_DEV_FINDINGS"]))["findings"]
     thorough = tier == "thorough"
-    t_start = time.time()
     chk.rule = ("model: every Read/Write/RPM/Scan sequence of ObjStore.tla up to the level bound; implementation: one evaluation = "
                 "one request/response exchange decoded from the wire (operations, read-backs after writes, per-element "
                 "ReadProperty after RPM, the full read-back of every declared property after every operation); distinct = "
@@ -1299,12 +1317,20 @@ def main(tier, seed):
         "priorities are passed through and not judged",
         "TLC exhaustive up to the stated level bound only; longer histories by trace validation of random runs"]
 
+    phases = chk.extra.setdefault("phase_wall_s", {})
+
+    def phase(name, t0=[time.time()]):
+        phases[name] = round(time.time() - t0[0], 1)
+        t0[0] = time.time()
+
     # D: the design satisfies the property
     c = abstract_config()
     # (VIEW ViewVal: states are identified by the store, so level L = every store reachable by L-1 operations, and every
     # operation from each of them; 99 = the full closure: operation sequences of ANY length)
     run_mc(chk, "abstract", c, 99 if thorough else 4, prios=(0, 16) if thorough else (0,), timeout=1500)
     run_mc(chk, "abstract_dev", c, 3, dev=True, invariants=False, expect_error=("RefusalChangesNothing",))
+
+    phase("D_model_checking")
 
     # R: edge cover of the small store on a real device
     dev = store_device()
@@ -1330,8 +1356,10 @@ def main(tier, seed):
                 note_case(chk, "StoreObject", False, e, t["schema"])
     chk.extra["replay"] = {"stores": len(stores), "alphabet": len(allops), "walks": len(rtraces),
                            "steps_executed_on_impl": sum(len(t["evs"]) for t in rtraces)}
+    phase("R_execution")
     seen = set()
     judge(chk, rtraces, "R", seen)
+    phase("R_trace_validation")
 
     # T: random traces over every registered object type (as declared, and all-writable)
     rng = random.Random(seed)
@@ -1363,8 +1391,16 @@ def main(tier, seed):
     for t in runnable[:2]:
         e = [e for e in t["evs"] if e["op"] == "write"][:2]
         chk.sample({"class": t["cls"], "twin": t["twin"], "events": [{k: x[k] for k in ("op", "o", "p", "i", "x", "pr", "res", "rb", "ch")} for x in e]})
+    phase("T_execution")
     judge(chk, runnable, "T", seen)
-    chk.extra["wall_split_s"] = round(time.time() - t_start, 1)
+    phase("T_trace_validation")
+    answers = collections.Counter()
+    for t in rtraces + runnable:
+        for e in t["evs"]:
+            if e.get("op") == "write":
+                answers["%s:%s" % (e["res"]["k"], e["res"]["c"])] += 1
+    chk.extra["write_answers"] = dict(sorted(answers.items()))
+    chk.extra["documented_wrong_type_refusals"] = ["%s:%s" % w for w in WRONG_TYPE_REFUSALS]
     return chk.finish()
 
 
